@@ -31,6 +31,11 @@ func (d *devmodOwnerModule) HandleInfo(ctx context.Context, messageName string, 
 		if err := cbor.NewDecoder(messageBody).Decode(&numModules); err != nil {
 			return err
 		}
+		// The count comes from the device: refuse values that no module
+		// list can have rather than allocating (or panicking) on them
+		if numModules < 0 || numModules > cbor.MaxArrayDecodeLength {
+			return fmt.Errorf("invalid devmod module count: %d", numModules)
+		}
 		d.Modules = make([]string, numModules)
 		return nil
 	case "modules":
@@ -73,6 +78,9 @@ func (d *devmodOwnerModule) parseModules(messageBody io.Reader) error {
 			chunk.Start = idx
 		}
 
+		if chunk.Len > len(d.Modules)-chunk.Start {
+			return fmt.Errorf("invalid devmod module chunk: more modules than announced in nummodules")
+		}
 		copy(d.Modules[chunk.Start:chunk.Start+chunk.Len], chunk.Modules)
 	}
 }
